@@ -27,7 +27,16 @@ Supported subset (anything else raises Unsupported(function:line), which a check
     on a byte count that must be a multiple of the cell size; calls to functions translated earlier in the same run;
   * `if` without a jump inside joins the variables its arms change (`let '(..) := if c then .. else ..`), with a `return` inside
     the rest of the block is translated under both arms; `c ? a : b` with loads or checks in its arms becomes such an `if`;
-    a cell read twice without a store to its array in between is read once.
+    a cell read twice without a store to its array in between is read once, a cell just stored reads back as the value stored;
+  * arrays of integers (`unsigned int *idx`) are `list nat`; members of members (`ctx->pid.kp`, `&ctx->pid` as an argument);
+    a pointer member the function tests against NULL gets a flag parameter `<member>_null`, accesses through it outside an arm
+    where the test has shown it non-null are checked; a member that is a pointer to a function of reals is a parameter
+    `T -> .. -> T`, `ctx->opr(a, b)` applies it; a function that returns such a pointer returns the Gallina function;
+  * `switch` on an integer (`s =? k`) or on `(int)real` (`k <= v < k + 1` for k >= 1, `-1 < v < 1` for 0; a value no label
+    matches - NaN and values outside int included, where C is undefined - takes the default arm): a chain of tests, LARGEST label
+    first, each arm running to its `break`, the statements after the switch under every arm; `goto L` where L labels the statement
+    right after the enclosing loop leaves the loop, where L is a later statement of the function body it continues there;
+  * the `externs` option maps C functions of reals that have their own tie elsewhere to the Gallina terms they are rendered as.
 Every function f becomes
 
   Definition gen_f {T} (O : NumOps T) <per C parameter: scalar | [array] offset | members of a struct parameter read> : option R
@@ -195,12 +204,21 @@ def member_keys(nodes):
     for top in nodes:
         for n in walk(top):
             if n.get("kind") == "MemberExpr":
-                b = strip(n["inner"][0])
-                if b.get("kind") == "DeclRefExpr":
-                    k = (b["referencedDecl"]["id"], n["name"])
-                    if k not in keys:
-                        keys.append(k)
+                k = member_path(n)
+                if k is not None and k not in keys:
+                    keys.append(k)
     return keys
+
+
+def member_path(n):
+    """`p->a.b` -> (decl id of p, 'a.b'); None when the expression is not a chain of members from a variable"""
+    path = []
+    while n.get("kind") == "MemberExpr":
+        path.append(n["name"])
+        n = strip(n["inner"][0])
+    if n.get("kind") == "DeclRefExpr" and path:
+        return (n["referencedDecl"]["id"], ".".join(reversed(path)))
+    return None
 
 
 # ---------------------------------------------------------------------------------------------- types
@@ -210,9 +228,34 @@ def unqual(q):
 
 class TU:
     def __init__(self, ast):
-        self.funcs, self.typedefs, self.records, self.sigs = {}, {}, {}, {}
+        self.funcs, self.typedefs, self.records, self.sigs, self.enums = {}, {}, {}, {}, {}
         for n in ast.get("inner", []):
             kd = n.get("kind")
+            if kd == "EnumDecl":
+                nxt = 0
+                for c in n.get("inner", []):
+                    if c.get("kind") != "EnumConstantDecl":
+                        continue
+                    exprs = [x for x in c.get("inner", []) if isinstance(x, dict) and not x.get("kind", "").endswith("Comment")]
+                    val = None
+                    e = exprs[0] if exprs else None
+                    while isinstance(e, dict) and e.get("kind") in ("ConstantExpr", "ImplicitCastExpr", "ParenExpr"):
+                        if "value" in e:
+                            break
+                        e = e["inner"][0]
+                    if isinstance(e, dict) and "value" in e and e.get("kind") in ("ConstantExpr", "IntegerLiteral"):
+                        try:
+                            val = int(e["value"])
+                        except ValueError:
+                            val = None
+                    if val is None and exprs:
+                        nxt = None              # an initialiser this reader does not evaluate: later values unknown
+                        continue
+                    if val is None:
+                        val = nxt
+                    if val is not None:
+                        self.enums[c["name"]] = val
+                        nxt = val + 1
             if kd == "FunctionDecl" and any(c.get("kind") == "CompoundStmt" for c in n.get("inner", [])):
                 self.funcs[n["name"]] = n
             elif kd == "TypedefDecl":
@@ -243,6 +286,12 @@ class TU:
 
     def ctype_s(self, q):
         q = q.strip()
+        m = re.fullmatch(r"(.+?)\s*\(\*\s*(?:const)?\)\((.*)\)", q)
+        if m:                                   # pointer to a function of reals
+            args = [a.strip() for a in m.group(2).split(",")] if m.group(2).strip() else []
+            if all(self.ctype_s(a)[0] == "real" for a in args + [m.group(1)]):
+                return ("fun", len(args))
+            raise Unsupported("type %s" % q)
         if "(" in q or "[" in q:
             raise Unsupported("type %s" % q)
         if "*" in q:
@@ -252,6 +301,8 @@ class TU:
                 raise Unsupported("type %s" % q)
             const = "const" in inner.split()
             return ("ptr", self.ctype_s(" ".join(w for w in inner.split() if w not in QUALS)), const)
+        if q.startswith("struct ") and q[7:].strip() in self.records:
+            return ("rec", q[7:].strip())
         b = self.base(" ".join(w for w in q.split() if w not in QUALS))
         if "*" in b:
             return self.ctype_s(b)
@@ -401,11 +452,11 @@ def with_pre(pre, code):
 
 class K:
     """continuations of a statement: next(env), ret(env, value or None), brk(env), cont(env) -> code"""
-    def __init__(self, nxt, ret, brk=None, cont=None):
-        self.next, self.ret, self.brk, self.cont = nxt, ret, brk, cont
+    def __init__(self, nxt, ret, brk=None, cont=None, gotos=None):
+        self.next, self.ret, self.brk, self.cont, self.gotos = nxt, ret, brk, cont, (gotos or {})
 
     def with_next(self, nxt):
-        return K(nxt, self.ret, self.brk, self.cont)
+        return K(nxt, self.ret, self.brk, self.cont, self.gotos)
 
 
 def lit_float(s):
@@ -434,6 +485,10 @@ class Fn:
         self.region_of = dict(opts.get("regions") or {})      # parameter (or `ctx.member`) -> array name
         self.fuel = list(opts.get("fuel") or [])
         self.helpers = opts.get("helpers") or {}              # name -> 'copy' | 'move' | 'set0' | 'set' (bodies checked in src/a.c)
+        self.externs = opts.get("externs") or {}              # C function of reals -> Gallina term it is rendered as (tied elsewhere)
+        self.rkind = {}             # array name -> ('real', size) | ('int', w, signed): the type of its cells
+        self.nullable = {}          # key of a pointer variable / member the function tests -> name of its `is null` flag
+        self.region_null = {}       # array reached only through a nullable pointer -> that flag
         self.used = set(RESERVED)
         self.aux = []               # Fixpoint texts
         self.nloop = 0
@@ -481,12 +536,18 @@ class Fn:
         if self.touch is not None:
             self.touch.add((mode, region))
 
-    def new_region(self, name, const):
+    def new_region(self, name, const, kind=("real", 8)):
         if name not in self.regions:
             self.regions.append(name)
             self.rconst[name] = const
+            self.rkind[name] = kind
         else:
             self.rconst[name] = self.rconst[name] and const
+            if self.rkind[name] != kind:
+                raise Unsupported("%s: the array %s is reached through pointers to %s and to %s" % (self.name, name, self.rkind[name], kind))
+
+    def ltype(self, region):
+        return "list T" if self.rkind[region][0] == "real" else "list nat"
 
     # ---- values
     def to_real(self, v, n):
@@ -534,18 +595,43 @@ class Fn:
         if v[0] == "ptr":
             return ("ptr", v[1], v[2])
         if v[0] == "struct":
-            return ("struct", key)
+            return ("struct", key, "")
+        if v[0] == "fun":
+            return ("fun", v[1], v[2])
         self.bad("use of %s" % what, n)
 
     def field_type(self, key, n):
         rec = self.struct_params[key[0]][0]
+        path = key[1].split(".")
+        for j, comp in enumerate(path):
+            found = None
+            for f, t in self.tu.records[rec]:
+                if f == comp:
+                    try:
+                        found = self.tu.ctype(t)
+                    except Unsupported as e:
+                        self.bad("member %s: %s" % (f, e), n)
+            if found is None:
+                self.bad("no member %s in struct %s" % (comp, rec), n)
+            if j == len(path) - 1:
+                return found
+            if found[0] != "rec":
+                self.bad("member %s of %s is not a struct" % (comp, rec), n)
+            rec = found[1]
+
+    def flat_fields(self, rec, prefix=""):
+        """dotted paths of the scalar / pointer members of a record, nested records in place, declaration order"""
+        out = []
         for f, t in self.tu.records[rec]:
-            if f == key[1]:
-                try:
-                    return self.tu.ctype(t)
-                except Unsupported as e:
-                    self.bad("member %s: %s" % (f, e), n)
-        self.bad("no member %s in struct %s" % (key[1], rec), n)
+            try:
+                ct = self.tu.ctype(t)
+            except Unsupported:
+                continue
+            if ct[0] == "rec":
+                out += self.flat_fields(ct[1], prefix + f + ".")
+            else:
+                out.append(prefix + f)
+        return out
 
     def field_input(self, key, env, n):
         """first read of a struct member that has not been written: it becomes an input of the generated function"""
@@ -556,21 +642,35 @@ class Fn:
         base = "%s_%s" % (self.struct_params[key[0]][2], key[1])
         if t[0] == "real":
             nm = self.fresh(base)
-            ent, gp = ("real", nm), ["(%s : T)" % nm]
+            ent, gp = ("real", nm), [("val", "(%s : T)" % nm)]
         elif t[0] == "int":
             nm = self.fresh(base)
-            ent, gp = ("int", nm, t[1:]), ["(%s : nat)" % nm]
-        elif t[0] == "ptr" and t[1][0] == "real":
-            rname = self.region_of.get("%s.%s" % (self.struct_params[key[0]][2], key[1]), base)
+            ent, gp = ("int", nm, t[1:]), [("val", "(%s : nat)" % nm)]
+        elif t[0] == "ptr" and t[1][0] in ("real", "int"):
+            rname = re.sub(r"[^A-Za-z0-9_]", "_", self.region_of.get("%s.%s" % (self.struct_params[key[0]][2], key[1]), base))
             gp = []
-            if rname not in self.regions:
+            if key in self.nullable_keys:
+                flag = self.fresh(base + "_null")
+                self.nullable[key] = flag
+                gp.append(("null", "(%s : bool)" % flag))
+                if rname not in self.regions:
+                    self.region_null[rname] = flag
+                else:
+                    self.region_null.pop(rname, None)
+            elif rname in self.region_null:
+                self.region_null.pop(rname, None)
+            isnew = rname not in self.regions
+            self.new_region(rname, t[2], t[1])
+            if isnew:
                 lst = self.fresh(rname)
                 self.entry_regions[rname] = lst
-                gp.append("(%s : list T)" % lst)
-            self.new_region(rname, t[2])
+                gp.append(("region", "(%s : %s)" % (lst, self.ltype(rname))))
             off = self.fresh(base + "_off")
-            gp.append("(%s : nat)" % off)
+            gp.append(("val", "(%s : nat)" % off))
             ent = ("ptr", rname, off)
+        elif t[0] == "fun":
+            nm = self.fresh(base)
+            ent, gp = ("fun", nm, t[1]), [("val", "(%s : %s)" % (nm, " -> ".join(["T"] * (t[1] + 1))))]
         else:
             self.bad("member %s of type %s" % (key[1], t), n)
         self.entry_fields[key] = ent
@@ -590,10 +690,10 @@ class Fn:
                 self.bad("assignment to %s" % n["referencedDecl"].get("name"), n)
             return ("var", i, n["referencedDecl"].get("name"))
         if k == "MemberExpr":
-            b = strip(n["inner"][0])
-            if b.get("kind") != "DeclRefExpr" or b["referencedDecl"]["id"] not in self.struct_params or not n.get("isArrow"):
+            key = member_path(n)
+            if key is None or key[0] not in self.struct_params:
                 self.bad("member access that is not <struct pointer parameter>->member", n)
-            return ("var", (b["referencedDecl"]["id"], n["name"]), "%s->%s" % (b["referencedDecl"]["name"], n["name"]))
+            return ("var", key, "%s->%s" % (self.struct_params[key[0]][2], key[1]))
         if k == "UnaryOperator" and n.get("opcode") == "*":
             p = self.expr(n["inner"][0], env, pre)
             if p[0] != "ptr":
@@ -616,29 +716,48 @@ class Fn:
 
     def load(self, region, off, env, pre, n):
         self.note("r", region)
+        kind = self.rkind[region]
+
+        def val(nm):
+            return ("real", nm) if kind[0] == "real" else ("int", nm, kind[1:], None)
         ck = ("L", env["R:" + region], off)      # the same cell of the same (unchanged) array read again: the value already bound
         if ck in env:
-            return ("real", env[ck])
+            return val(env[ck])
+        if region in self.region_null and ("NN:" + region) not in env:
+            if self.infix:
+                self.bad("access inside a loop through a pointer that is not known to be non-null there", n)
+            pre.append(("guard", "negb %s" % self.region_null[region]))      # access through a pointer that may be null
         v = self.fresh("v_" + region)
         pre.append(("bind", [v], "nth_error %s %s" % (env["R:" + region], par(off))))
         env[ck] = v
-        return ("real", v)
+        return val(v)
 
     def store(self, region, off, term, env, pre, n):
         if self.rconst.get(region, False):
             self.bad("store into the array %s, which is only reached through pointers to const" % region, n)
         self.note("w", region)
+        if region in self.region_null and ("NN:" + region) not in env:
+            if self.infix:
+                self.bad("access inside a loop through a pointer that is not known to be non-null there", n)
+            pre.append(("guard", "negb %s" % self.region_null[region]))
         new = self.fresh(region)
         pre.append(("bind", [new], "upd %s %s %s" % (env["R:" + region], par(off), par(term))))
         env["R:" + region] = new
+        if re.fullmatch(r"[\w']+", term):
+            env[("L", new, off)] = term       # the cell just written reads back as the value stored
 
     def assign(self, lv, v, env, pre, n, hint=None):
         """store value v (already converted to the type of the target); returns the value of the assignment expression"""
         if lv[0] == "mem":
-            t = self.to_real(v, n)
-            t = self.name_it(t, "w_" + lv[1], pre)
+            if self.rkind[lv[1]][0] == "real":
+                t = self.name_it(self.to_real(v, n), "w_" + lv[1], pre)
+                self.store(lv[1], lv[2], t, env, pre, n)
+                return ("real", t)
+            if v[0] != "int" or (v[3] is None and v[2] != self.rkind[lv[1]][1:]):
+                self.bad("store of a %s into an array of integers of another type" % v[0], n)
+            t = self.name_it(self.to_int(v, n), "w_" + lv[1], pre)
             self.store(lv[1], lv[2], t, env, pre, n)
-            return ("real", t)
+            return ("int", t, self.rkind[lv[1]][1:], v[3])
         key, what = lv[1], lv[2]
         cur = env.get(key)
         if isinstance(key, tuple):
@@ -667,6 +786,11 @@ class Fn:
                 t = nm
             env[key] = ("int", t, kind[1:])
             return ("int", t, kind[1:], v[3])
+        if kind[0] == "fun":
+            if v[0] != "fun":
+                self.bad("assignment of a non-function to %s" % what, n)
+            env[key] = ("fun", v[1], v[2])
+            return v
         if kind[0] == "ptr":
             if v[0] != "ptr":
                 self.bad("assignment of a non-pointer to pointer %s" % what, n)
@@ -695,6 +819,17 @@ class Fn:
             return ("real", lit_float(n["value"]))
         if k == "DeclRefExpr":
             rd = n["referencedDecl"]
+            if rd.get("kind") == "EnumConstantDecl":
+                if rd.get("name") not in self.tu.enums:
+                    self.bad("enumeration constant %s of unknown value" % rd.get("name"), n)
+                t = self.ety(n)
+                return ("int", str(self.tu.enums[rd["name"]]), t[1:], self.tu.enums[rd["name"]])
+            if rd.get("kind") == "FunctionDecl":
+                if rd.get("name") not in self.externs:
+                    self.bad("function %s used as a value (not in the `externs` option)" % rd.get("name"), n)
+                ft = n["type"].get("desugaredQualType") or n["type"].get("qualType")
+                inside = ft[ft.index("(") + 1:ft.rindex(")")].strip()
+                return ("fun", "(%s)" % self.externs[rd["name"]], len(inside.split(",")) if inside and inside != "void" else 0)
             if rd.get("kind") not in ("VarDecl", "ParmVarDecl"):
                 self.bad("reference to %s %s" % (rd.get("kind"), rd.get("name")), n)
             return self.read_key(rd["id"], env, n, rd.get("name"))
@@ -754,6 +889,11 @@ class Fn:
             if (1 << (sw - 1 if ss else sw)) > lim:
                 self.check_fits(v[1], t[1:], pre)
             return ("int", v[1], t[1:], None)
+        if ck == "FloatingToIntegral":
+            v = self.expr(sub, env, pre)
+            if v[0] != "real":
+                self.bad("conversion of a %s to an integer" % v[0], n)
+            return ("trunc", self.name_it(v[1], "tr", pre))       # only a `switch` can use it
         if ck == "FloatingCast":
             a, b = self.ety(n), self.ety(sub)
             if a != b:
@@ -808,6 +948,10 @@ class Fn:
             return self.load(lv[1], lv[2], env, pre, n)
         if op == "&":
             s = strip(sub)
+            if s.get("kind") == "MemberExpr":
+                key = member_path(s)
+                if key is not None and key[0] in self.struct_params and self.field_type(key, n)[0] == "rec":
+                    return ("struct", key[0], key[1] + ".")
             if s.get("kind") in ("ArraySubscriptExpr",) or (s.get("kind") == "UnaryOperator" and s.get("opcode") == "*"):
                 lv = self.lvalue(s, env, pre)
                 return ("ptr", lv[1], lv[2])
@@ -1023,6 +1167,13 @@ class Fn:
             if op == ">=":
                 return "(%s <=? %s)" % (y, x), False
             return "(%s =? %s)" % (x, y), op == "!="
+        nk = self.nullable_key(n)
+        if nk is not None:
+            self.read_key(nk, env, n, "pointer")               # makes the member an input (with its flag) if it is not yet
+            if nk in self.nullable:
+                if self.infix:
+                    self.bad("null test inside a loop", n)
+                return self.nullable[nk], True
         v = self.expr(n0, env, pre)
         if v[0] == "bool":
             return v[1], v[2]
@@ -1032,15 +1183,34 @@ class Fn:
             return "(eqb O %s (ofZ O 0))" % v[1], True
         self.bad("truth value of a %s" % v[0], n)
 
+    def nullable_key(self, n):
+        """key of the pointer variable / member an expression names, when the function tests it against null"""
+        n = strip(n)
+        while n.get("kind") in ("ImplicitCastExpr", "ParenExpr"):
+            n = n["inner"][0]
+        key = None
+        if n.get("kind") == "MemberExpr":
+            key = member_path(n)
+        elif n.get("kind") == "DeclRefExpr":
+            key = n["referencedDecl"]["id"]
+        return key if key in self.nullable_keys else None
+
     # ---- calls
     def call(self, n, env, pre):
         callee = n["inner"][0]
         while callee.get("kind") in ("ImplicitCastExpr", "ParenExpr"):
             callee = callee["inner"][0]
+        args = n["inner"][1:]
+        if callee.get("kind") == "MemberExpr" or (callee.get("kind") == "DeclRefExpr" and callee["referencedDecl"].get("kind") != "FunctionDecl"):
+            f = self.expr(callee, env, pre)
+            if f[0] != "fun":
+                self.bad("call through something that is not a function of reals", n)
+            return ("real", "(%s %s)" % (f[1], " ".join(self.to_real(self.expr(a, env, pre), n) for a in args)))
         if callee.get("kind") != "DeclRefExpr":
             self.bad("indirect call", n)
         fname = callee["referencedDecl"]["name"]
-        args = n["inner"][1:]
+        if fname in self.externs and fname not in self.tu.sigs:
+            return ("real", "(%s %s)" % (self.externs[fname], " ".join(self.to_real(self.expr(a, env, pre), n) for a in args)))
         if fname in LIB1 and len(args) == 1:
             return ("real", "(fn1 O %s %s)" % (LIB1[fname], self.to_real(self.expr(args[0], env, pre), n)))
         if fname in LIB2 and len(args) == 2:
@@ -1101,6 +1271,10 @@ class Fn:
         def bind_region(cr, mine):
             if rmap.setdefault(cr, mine) != mine:
                 self.bad("call to %s: pointers into different arrays for parameters that share the array %s" % (fname, cr), n)
+            if sig["rkind"][cr] != self.rkind[mine]:
+                self.bad("call to %s: array %s has cells of another type than the callee's %s" % (fname, mine, cr), n)
+            if mine in self.region_null and ("NN:" + mine) not in env and cr not in sig.get("region_null", {}):
+                pre.append(("guard", "negb %s" % self.region_null[mine]))      # the callee takes the pointer for valid
         fld = {}                       # (param index, member) -> value read in the caller
         for i, (sp, v) in enumerate(zip(sig["params"], vals)):
             if sp["kind"] == "ptr":
@@ -1111,7 +1285,7 @@ class Fn:
                 if v[0] != "struct":
                     self.bad("call to %s: argument %d is not a struct pointer parameter" % (fname, i + 1), n)
                 for f, fk, fr in sp["ins"]:
-                    fv = self.read_key((v[1], f), env, n, "%s->%s" % (self.struct_params[v[1]][2], f))
+                    fv = self.read_key((v[1], v[2] + f), env, n, "%s->%s" % (self.struct_params[v[1]][2], v[2] + f))
                     fld[(i, f)] = fv
                     if fk == "ptr":
                         bind_region(fr, fv[1])
@@ -1138,7 +1312,10 @@ class Fn:
                 gargs.append(par(vals[it[1]][2]))
             elif it[0] == "fin":
                 v = fld[(it[1], it[2])]
-                gargs.append(par(v[2]) if v[0] == "ptr" else (v[1] if v[0] == "real" else par(v[1])))
+                gargs.append(par(v[2]) if v[0] == "ptr" else (v[1] if v[0] in ("real", "fun") else par(v[1])))
+            elif it[0] == "fnull":
+                sv = vals[it[1]]
+                gargs.append(self.nullable.get((sv[1], sv[2] + it[2]), "false"))
         names, after, rv = [], [], ("void",)
         for o in sig["outs"]:
             if o[0] == "region":
@@ -1149,8 +1326,8 @@ class Fn:
                 after.append(("R:" + mine, nm))
             elif o[0] == "field":
                 skey = vals[o[1]][1]
-                key = (skey, o[2])
-                base = "%s_%s" % (self.struct_params[skey][2], o[2])
+                key = (skey, vals[o[1]][2] + o[2])
+                base = "%s_%s" % (self.struct_params[skey][2], key[1])
                 if self.struct_params[skey][1]:
                     self.bad("call to %s writes a member of the const struct %s" % (fname, self.struct_params[skey][2]), n)
                 if self.infix:
@@ -1163,6 +1340,9 @@ class Fn:
                 elif o[3] == "real":
                     nm = self.fresh(base)
                     after.append((key, ("real", nm)))
+                elif o[3] == "fun":
+                    nm = self.fresh(base)
+                    after.append((key, ("fun", nm, o[5])))
                 else:
                     nm = self.fresh(base)
                     after.append((key, ("int", nm, o[5])))
@@ -1170,7 +1350,7 @@ class Fn:
             elif o[0] == "ret":
                 nm = self.fresh("r_" + fname)
                 names.append(nm)
-                rv = ("real", nm) if o[1] == "real" else ("int", nm, o[2], None)
+                rv = ("real", nm) if o[1] == "real" else (("fun", nm, o[2]) if o[1] == "fun" else ("int", nm, o[2], None))
         pre.append(("bind", names, "%s O %s" % (sig["gen"], " ".join(gargs))))
         for key, val in after:
             env[key] = val
@@ -1192,7 +1372,7 @@ class Fn:
                 if d.get("kind") != "VarDecl":
                     self.bad("declaration %s" % d.get("kind"), s)
                 t = self.ety(d)
-                if t[0] not in ("real", "int", "ptr") or (t[0] == "ptr" and t[1][0] not in ("real", "void")):
+                if t[0] not in ("real", "int", "ptr") or (t[0] == "ptr" and t[1][0] not in ("real", "int", "void")):
                     self.bad("local %s of type %s" % (d.get("name"), t), d)
                 self.vtype[d["id"]] = t
                 self.cname[d["id"]] = d["name"]
@@ -1220,11 +1400,78 @@ class Fn:
             return self.if_stmt(s, rest, env, k)
         if kind in ("ForStmt", "WhileStmt", "DoStmt", "_Loop"):
             return self.loop_stmt(s, rest, env, k)
-        if kind in ("GotoStmt", "LabelStmt", "SwitchStmt"):
-            self.bad(kind, s)
+        if kind == "LabelStmt":
+            return self.block(list(s.get("inner", [])) + rest, env, k)
+        if kind == "GotoStmt":
+            target = s.get("targetLabelDeclId")
+            if target not in k.gotos:
+                self.bad("goto to a label that is neither right after the enclosing loop nor a later statement of the function body", s)
+            return k.gotos[target](env)
+        if kind == "SwitchStmt":
+            return self.switch_stmt(s, rest, env, k)
         pre = []
         self.expr(s, env, pre)
         return with_pre(pre, self.block(rest, env, k))
+
+    def switch_stmt(self, s, rest, env, k):
+        """`switch` on an integer or on `(int)real`: a chain of tests, largest label first, each arm running from its label to
+        the first `break` (falling through later labels); the statements after the switch follow every arm"""
+        parts = [c for c in s["inner"] if c.get("kind") != "DeclStmt"]
+        pre = []
+        v = self.expr(parts[0], env, pre)
+        if v[0] not in ("int", "trunc"):
+            self.bad("switch on a %s" % v[0], s)
+        body = list(parts[1].get("inner", [])) if parts[1].get("kind") == "CompoundStmt" else [parts[1]]
+        flat = []                           # (labels, statement)
+        for st in body:
+            labels = []
+            while st.get("kind") in ("CaseStmt", "DefaultStmt"):
+                if st["kind"] == "DefaultStmt":
+                    labels.append("default")
+                    st = st["inner"][-1]
+                else:
+                    if len(st["inner"]) != 2:
+                        self.bad("case range", st)
+                    cv = self.expr(st["inner"][0], dict(env), [])
+                    if cv[0] != "int" or cv[3] is None:
+                        self.bad("case label that is not an integer constant", st)
+                    labels.append(cv[3])
+                    st = st["inner"][-1]
+            flat.append((labels, st))
+        for labels, st in flat:
+            if has_kind(st, ("CaseStmt", "DefaultStmt")):
+                self.bad("case label inside a nested statement", st)
+
+        def after(e):
+            return self.block(rest, e, k)
+        karm = K(after, k.ret, after, k.cont, k.gotos)
+
+        def arm(j):
+            return self.block([st for _, st in flat[j:]], dict(env), karm)
+
+        def test(val):
+            if v[0] == "int":
+                return "(%s =? %d)" % (v[1], val)
+            x = v[1]
+            if val >= 1:
+                return "(andb (leb O (ofZ O %d) %s) (ltb O %s (ofZ O %d)))" % (val, x, x, val + 1)
+            if val == 0:
+                return "(andb (ltb O (ofZ O (-1)) %s) (ltb O %s (ofZ O 1)))" % (x, x)
+            return "(andb (ltb O (ofZ O (%d)) %s) (leb O %s (ofZ O (%d))))" % (val - 1, x, x, val)
+        dflt = [j for j, (labels, _) in enumerate(flat) if "default" in labels]
+        code = arm(dflt[0]) if dflt else after(dict(env))
+        tested = [(max(l for l in labels), j, [l for l in labels]) for j, (labels, _) in enumerate(flat)
+                  if labels and "default" not in labels]
+        seen = set()
+        for labels, _ in flat:
+            for l in labels:
+                if l in seen:
+                    self.bad("duplicate case label", s)
+                seen.add(l)
+        for _, j, labels in sorted(tested):          # the chain is built from the inside: smallest label innermost
+            c = test(labels[0]) if len(labels) == 1 else "(%s)" % " || ".join(test(l) for l in labels)
+            code = ("if", c, False, arm(j), code)
+        return with_pre(pre, code)
 
     def postdec_test(self, c, env):
         """`n--` of an unsigned counter used only as a truth value -> decl id"""
@@ -1242,7 +1489,7 @@ class Fn:
             v = env[key]
             if isinstance(key, str) and key.startswith("R:"):
                 out.append(v)
-            elif v[0] in ("real", "int"):
+            elif v[0] in ("real", "int", "fun"):
                 out.append(v[1])
             elif v[0] == "ptr":
                 out.append(v[2])
@@ -1267,6 +1514,9 @@ class Fn:
             elif v[0] == "ptr":
                 nm = self.fresh(self.keyname(key) + "_off")
                 env[key] = ("ptr", v[1], nm)
+            elif v[0] == "fun":
+                nm = self.fresh(self.keyname(key))
+                env[key] = ("fun", nm, v[2])
             else:
                 raise Unsupported("%s: internal: state entry %s" % (self.name, v[0]))
             names.append(nm)
@@ -1276,6 +1526,16 @@ class Fn:
         if isinstance(key, tuple):
             return "%s_%s" % (self.struct_params[key[0]][2], key[1])
         return self.cname.get(key, "v")
+
+    def nonnull_marks(self, cnode, env):
+        """arrays known to be reachable (their pointer is not null) in the then / else arm of `if (p)` / `if (!p)`"""
+        c, neg = strip(cnode), False
+        while c.get("kind") == "UnaryOperator" and c.get("opcode") == "!":
+            c, neg = strip(c["inner"][0]), not neg
+        nk = self.nullable_key(c)
+        if nk is None or nk not in env or env[nk][0] != "ptr":
+            return [], []
+        return ([], [env[nk][1]]) if neg else ([env[nk][1]], [])
 
     def if_stmt(self, s, rest, env, k):
         parts = s["inner"]
@@ -1291,9 +1551,16 @@ class Fn:
             return ("natcase", cur[1], self.block([els] + rest, e0, k), nm, self.block([then] + rest, e1, k))
         pre = []
         c, neg = self.cond(cnode, env, pre)
+        nn_then, nn_else = self.nonnull_marks(cnode, env)
+
+        def marked(e, marks):
+            e = dict(e)
+            for r in marks:
+                e["NN:" + r] = "y"
+            return e
         if has_jump(then) or has_jump(els):
-            c1 = self.block([then] + rest, dict(env), k)
-            c2 = self.block([els] + rest, dict(env), k)
+            c1 = self.block([then] + rest, marked(env, nn_then), k)
+            c2 = self.block([els] + rest, marked(env, nn_else), k)
             return with_pre(pre, ("if", c, neg, c1, c2))
         # no jump inside: the arms return the entries they changed, the rest follows once
         envs = []
@@ -1303,11 +1570,11 @@ class Fn:
             return ("hole", len(envs) - 1)
         self.future.append(rest)
         try:
-            c1 = self.block([then], dict(env), k.with_next(hole))
-            c2 = self.block([els], dict(env), k.with_next(hole))
+            c1 = self.block([then], marked(env, nn_then), k.with_next(hole))
+            c2 = self.block([els], marked(env, nn_else), k.with_next(hole))
         finally:
             self.future.pop()
-        keys = [key for key in env if any(e.get(key) != env[key] for e in envs)]
+        keys = [key for key in env if any(e.get(key) != env[key] for e in envs) and not (isinstance(key, str) and key.startswith("NN:"))]
         dead = [key for key in keys if not (isinstance(key, str) and key.startswith("R:")) and self.dead_on_entry(key, rest)]
         keys = [key for key in keys if key not in dead]
         for key in keys:
@@ -1330,7 +1597,9 @@ class Fn:
     # ---- loops
     def gtype(self, env, key):
         if isinstance(key, str) and key.startswith("R:"):
-            return "list T"
+            return self.ltype(key[2:])
+        if env[key][0] == "fun":
+            return "(%s)" % " -> ".join(["T"] * (env[key][2] + 1))
         return "T" if env[key][0] == "real" else "nat"
 
     def structural_counter(self, cond, inc, body, env, is_do):
@@ -1472,9 +1741,12 @@ class Fn:
 
     def loop(self, s, rest, env, k):
         cond, inc, body, is_do = s["cond"], s["inc"], s["body"], s["do"]
+        s = dict(s)
+        s["_after"] = rest[0].get("declId") if rest and rest[0].get("kind") == "LabelStmt" else None     # `goto` there = leave the loop
         nodes = [x for x in (cond, inc, body) if x.get("kind")]
-        for key in member_keys(nodes):
-            if key[0] in self.struct_params and key not in env:
+        mkeys = [key for key in member_keys(nodes) if key[0] in self.struct_params and self.field_type(key, s)[0] != "rec"]
+        for key in mkeys:
+            if key not in env:
                 self.field_input(key, env, s)
         inner_decl = set(declared_ids(nodes))
         assigned = [i for i in assigned_ids(nodes) if i not in inner_decl]
@@ -1484,9 +1756,7 @@ class Fn:
             if env[i][0] == "poison":
                 self.bad("variable %s %s" % (self.cname.get(i), env[i][1]), s)
         scratch = [i for i in assigned if env[i][0] == "uninit"]
-        for key in member_keys(nodes):
-            pass
-        fkeys = [key for key in member_keys(nodes) if key[0] in self.struct_params]
+        fkeys = mkeys
         referenced = [i for i in referenced_ids(nodes) if i not in inner_decl and i in env and env[i][0] in ("real", "int", "ptr")]
         sc = self.structural_counter(cond, inc, body, env, is_do)
         state = [i for i in assigned if i not in scratch and not (sc and i == sc[0])]
@@ -1546,7 +1816,8 @@ class Fn:
         self.infix += 1
         box = {"ret": False}
         try:
-            e_in = {key: v for key, v in env.items() if not isinstance(v, str) and v[0] == "struct"}
+            e_in = {key: v for key, v in env.items() if (not isinstance(v, str) and v[0] == "struct") or
+                    (isinstance(key, str) and key.startswith("NN:"))}
             for i in scratch:
                 e_in[i] = env[i]
             for key in ro + rd + wr + state:
@@ -1588,10 +1859,12 @@ class Fn:
                     self.bad("return with a value in a void function", node)
                 return ("ret", "inr %s" % par(tup(terms)))
 
-            def end_of_body(e):
-                return self.block([inc] if inc.get("kind") else [], e, K(recurse, ret_))
+            kpass_gotos = {s["_after"]: exit_} if s.get("_after") else {}
 
-            kpass = K(end_of_body, ret_, exit_, end_of_body)
+            def end_of_body(e):
+                return self.block([inc] if inc.get("kind") else [], e, K(recurse, ret_, gotos=kpass_gotos))
+
+            kpass = K(end_of_body, ret_, exit_, end_of_body, {s["_after"]: exit_} if s.get("_after") else {})
             self.future.append([x for x in (cond, inc, body) if x.get("kind")])
             try:
                 if sc:
@@ -1609,7 +1882,7 @@ class Fn:
                         pre = []
                         c, neg = self.cond(cond, e, pre)
                         return with_pre(pre, ("if", c, neg, recurse(dict(e)), exit_(dict(e))))
-                    code = ("natcase", "fuel", ("fail",), "fuel_1", self.block([body], dict(e_in), K(test, ret_, exit_, test)))
+                    code = ("natcase", "fuel", ("fail",), "fuel_1", self.block([body], dict(e_in), K(test, ret_, exit_, test, kpass_gotos)))
                 else:
                     pre = []
                     e = dict(e_in)
@@ -1627,7 +1900,7 @@ class Fn:
             code = fill(code, fill_exit)
             st_ty = " * ".join(self.gtype(e_in, key) for key in ret_keys) if ret_keys else "unit"
             if box["ret"]:
-                rt = ["list T" for _ in wr] + ([] if self.ret is None else ["T" if self.ret[0] == "real" else "nat"])
+                rt = [self.ltype(r[2:]) for r in wr] + ([] if self.ret is None else ["T" if self.ret[0] == "real" else "nat"])
                 st_ty = "(%s) + (%s)" % (st_ty, " * ".join(rt) if rt else "unit")
             params = [head] + ["(%s : %s)" % (nm, self.gtype(e_in, key)) for nm, key in zip(ro_names + rd_names + wr_names + st_names, ro + rd + wr + state)]
             text = "Fixpoint %s {T : Type} (O : NumOps T) %s {struct %s} : option (%s) :=\n%s.\n" % (
@@ -1650,14 +1923,44 @@ class Fn:
         self.gen_name = "gen_" + self.name
         self.esz = self.tu.ctype_s("a_real")[1] if "a_real" in self.tu.typedefs else 8
         self.vtype, self.infix, self.entry_regions = {}, 0, {}
-        rt = node["type"]["qualType"].split("(")[0].strip()
+        fq = node["type"].get("desugaredQualType") or node["type"]["qualType"]
+        m = re.fullmatch(r"(.+?)\s*\(\*\s*\((.*?)\)\)\((.*)\)", fq.strip())
+        if m:                                   # returns a pointer to a function of reals
+            rt = "%s (*)(%s)" % (m.group(1), m.group(3))
+        else:
+            rt = fq.split("(")[0].strip()
         rty = self.tu.ctype_s(rt)
         if rty[0] == "void":
             self.ret = None
-        elif rty[0] in ("real", "int"):
+        elif rty[0] in ("real", "int", "fun"):
             self.ret = rty
         else:
             raise Unsupported("%s returns %s" % (self.name, rt))
+        # pointer variables / members that are tested against null somewhere in the body
+        self.nullable_keys = set()
+        for m_ in walk(body[0]):
+            kd = m_.get("kind")
+            cands = []
+            if kd in ("IfStmt", "WhileStmt", "ConditionalOperator"):
+                cands.append(m_["inner"][0])
+            elif kd == "DoStmt":
+                cands.append(m_["inner"][1])
+            elif kd == "ForStmt" and len(m_["inner"]) > 2 and m_["inner"][2].get("kind"):
+                cands.append(m_["inner"][2])
+            elif kd == "UnaryOperator" and m_.get("opcode") == "!":
+                cands.append(m_["inner"][0])
+            elif kd == "BinaryOperator" and m_.get("opcode") in ("&&", "||"):
+                cands += m_["inner"]
+            for c in cands:
+                c = strip(c)
+                while c.get("kind") in ("ImplicitCastExpr", "ParenExpr"):
+                    c = c["inner"][0]
+                ct = (c.get("type") or {}).get("qualType", "")
+                if "*" in ct and "(" not in ct:
+                    if c.get("kind") == "MemberExpr" and member_path(c):
+                        self.nullable_keys.add(member_path(c))
+                    elif c.get("kind") == "DeclRefExpr":
+                        self.nullable_keys.add(c["referencedDecl"]["id"])
         env = {}
         gparams, sigparams, order = [], [], []
         for pi, p in enumerate(params):
@@ -1678,15 +1981,18 @@ class Fn:
                 gparams.append("(%s : nat)" % nm)
                 sigparams.append({"kind": "int", "ty": t[1:]})
                 order.append(("scalar", pi))
-            elif t[0] == "ptr" and t[1][0] == "real":
+            elif t[0] == "ptr" and t[1][0] in ("real", "int"):
+                if p["id"] in self.nullable_keys:
+                    raise Unsupported("%s: pointer parameter %s is tested against null" % (self.name, p["name"]))
                 rname = self.region_of.get(p["name"], p["name"])
-                if rname not in self.regions:
+                isnew = rname not in self.regions
+                self.new_region(rname, t[2], t[1])
+                if isnew:
                     lst = self.fresh(rname)
                     self.entry_regions[rname] = lst
                     env["R:" + rname] = lst
-                    gparams.append("(%s : list T)" % lst)
+                    gparams.append("(%s : %s)" % (lst, self.ltype(rname)))
                     order.append(("region", rname))
-                self.new_region(rname, t[2])
                 off = self.fresh(p["name"] + "_off")
                 env[p["id"]] = ("ptr", rname, off)
                 gparams.append("(%s : nat)" % off)
@@ -1710,12 +2016,17 @@ class Fn:
             if self.ret is not None:
                 raise Unsupported("%s: control reaches the end of a non-void function" % self.name)
             return fret(e, None, node)
-        code = self.block([body[0]], env, K(fell_off, fret))
+        stmts = list(body[0].get("inner", []))
+        ktop = K(fell_off, fret)
+        for j, st in enumerate(stmts):          # `goto` to a later statement of the body: the statements from the label on
+            if st.get("kind") == "LabelStmt":
+                ktop.gotos[st["declId"]] = (lambda j_: lambda e: self.block(stmts[j_:], e, ktop))(j)
+        code = self.block(stmts, env, ktop)
         # struct members: inputs are those read before written (order of first read), outputs those written (declaration order)
         written = []
         for sp in sigparams:
             if sp["kind"] == "struct":
-                for f, _t in self.tu.records[sp["rec"]]:
+                for f in self.flat_fields(sp["rec"]):
                     if (sp["id"], f) in self.field_written:
                         if sp["const"]:
                             raise Unsupported("%s writes member %s of a const struct" % (self.name, f))
@@ -1727,7 +2038,7 @@ class Fn:
                     self.field_input(key, e, n)
         out_regions = [r for r in self.regions if not self.rconst[r]]
         outs = [("region", r) for r in out_regions]
-        out_ty = ["list T" for _ in out_regions]
+        out_ty = [self.ltype(r) for r in out_regions]
         pidx = {sp["id"]: i for i, sp in enumerate(sigparams) if sp["kind"] == "struct"}
         for key in written:
             t = self.field_type(key, node)
@@ -1735,12 +2046,14 @@ class Fn:
                 outs.append(("field", pidx[key[0]], key[1], "ptr", None, None))
             elif t[0] == "real":
                 outs.append(("field", pidx[key[0]], key[1], "real", None, None))
+            elif t[0] == "fun":
+                outs.append(("field", pidx[key[0]], key[1], "fun", None, t[1]))
             else:
                 outs.append(("field", pidx[key[0]], key[1], "int", None, t[1:]))
-            out_ty.append("T" if t[0] == "real" else "nat")
+            out_ty.append("T" if t[0] == "real" else ("(%s)" % " -> ".join(["T"] * (t[1] + 1)) if t[0] == "fun" else "nat"))
         if self.ret is not None:
-            outs.append(("ret", self.ret[0], self.ret[1:] if self.ret[0] == "int" else None))
-            out_ty.append("T" if self.ret[0] == "real" else "nat")
+            outs.append(("ret", self.ret[0], self.ret[1:] if self.ret[0] == "int" else (self.ret[1] if self.ret[0] == "fun" else None)))
+            out_ty.append("T" if self.ret[0] == "real" else ("(%s)" % " -> ".join(["T"] * (self.ret[1] + 1)) if self.ret[0] == "fun" else "nat"))
         field_regions = {}
 
         def fill_fret(h):
@@ -1759,7 +2072,12 @@ class Fn:
             if self.ret is not None:
                 if v is None:
                     self.bad("return without a value", n)
-                terms.append(self.to_real(v, n) if self.ret[0] == "real" else self.to_int(v, n))
+                if self.ret[0] == "fun":
+                    if v[0] != "fun":
+                        self.bad("return of a %s where a function is expected" % v[0], n)
+                    terms.append(v[1])
+                else:
+                    terms.append(self.to_real(v, n) if self.ret[0] == "real" else self.to_int(v, n))
             return ("ret", tup(terms))
         code = fill(code, fill_fret)
         outs = [(o[0], o[1], o[2], o[3], field_regions.get((sigparams[o[1]]["id"], o[2])), o[5]) if o[0] == "field" else o for o in outs]
@@ -1772,14 +2090,11 @@ class Fn:
                 for key, ent, gp in self.struct_in:
                     if key[0] != sid:
                         continue
-                    gtext += gp
-                    if ent[0] == "ptr":
-                        if any(x.startswith("(%s :" % self.entry_regions.get(ent[1], "?")) for x in gp):
-                            gorder.append(("region", ent[1]))
-                        ins.append((key[1], "ptr", ent[1]))
-                    else:
-                        ins.append((key[1], ent[0], None))
-                    gorder.append(("fin", g[1], key[1]))
+                    for gk, gt in gp:
+                        gtext.append(gt)
+                        gorder.append({"null": ("fnull", g[1], key[1]), "region": ("region", ent[1] if ent[0] == "ptr" else None),
+                                       "val": ("fin", g[1], key[1])}[gk])
+                    ins.append((key[1], ent[0], ent[1] if ent[0] == "ptr" else None))
                 sigparams[g[1]]["ins"] = ins
                 sigparams[g[1]]["outs"] = [(o2[2], o2[3], o2[4]) for o2 in outs if o2[0] == "field" and o2[1] == g[1]]
             else:
@@ -1793,7 +2108,8 @@ class Fn:
         text = "".join(a + "\n" for a in self.aux)
         text += cmt + "Definition %s {T : Type} (O : NumOps T) %s : option %s :=\n%s.\n" % (self.gen_name, " ".join(gtext), par(rty_s), render(code, 1))
         sig = {"gen": self.gen_name, "params": sigparams, "gparams": gorder, "outs": outs, "regions": list(self.regions),
-               "rconst": dict(self.rconst), "gtext": gtext, "rtype": rty_s, "loops": self.nloop}
+               "rconst": dict(self.rconst), "rkind": dict(self.rkind), "region_null": dict(self.region_null), "gtext": gtext,
+               "rtype": rty_s, "loops": self.nloop}
         return text, sig
 
 
@@ -1836,7 +2152,7 @@ def check_helpers(tu):
     return out, errs
 
 
-def translate(sources, include, cfg, regions=None, fuel=None, helpers_source=None, sigs=None):
+def translate(sources, include, cfg, regions=None, fuel=None, helpers_source=None, sigs=None, externs=None):
     """sources: [(absolute path, [function names])] in call order.  -> (Gallina text without the prelude, {name: error},
     {name: signature}).  regions: {function: {parameter or 'ctx.member': array name}}; fuel: {function: [term per loop or None]}."""
     sigs = sigs if sigs is not None else {}
@@ -1858,7 +2174,8 @@ def translate(sources, include, cfg, regions=None, fuel=None, helpers_source=Non
                 errs[nm] = "function %s not found with a body in %s (configuration changed?)" % (nm, path)
                 continue
             try:
-                f = Fn(tu.funcs[nm], tu, {"regions": (regions or {}).get(nm), "fuel": (fuel or {}).get(nm), "helpers": helpers})
+                f = Fn(tu.funcs[nm], tu, {"regions": (regions or {}).get(nm), "fuel": (fuel or {}).get(nm), "helpers": helpers,
+                                          "externs": externs})
                 text, sig = f.translate()
                 out.append(text)
                 sigs[nm] = sig
